@@ -41,6 +41,8 @@ def run(ctx):
         ctx.notes["exhaustive_small_scope"] = "all instances with <= 2 jobs x <= 2 operations on 2 machines, durations <= 2, slack 0..2 with 1..10 qubits, share 0, all basis states"
     cases += [dict(je.gen_contended_case(ctx.rng, share=0), kind=PID.lower()) for _ in range(ctx.n(24, 250))]
     cases += [dict(je.gen_large_slack_case(ctx.rng, share=0), kind=PID.lower()) for _ in range(ctx.n(10, 120))]
+    # (n_jobs+1)^limit >= 2^63: long operations (all basis states) and unit operations (selected states, exact energies)
+    cases += [dict(je.gen_huge_limit_case(ctx.rng, share=0, kind=k), kind=PID.lower()) for k in ["long", "long", "unit"] * ctx.n(1, 12)]
     for c in cases:
         summ = je.examiner(c)(ctx, batch, c, WANT, ctx.rng)
         c01.tally_case(ctx, c, summ)
